@@ -292,6 +292,10 @@ class FakeSock(object):
             self.eng.sendstats.append('again')
             raise socket.error(self.eng.again_errno, 'try again')
         n = min(int(o[1:]), len(data))
+        if len(data) == 0:
+            # send() with NOTHING to send: a real socket returns 0, which the reactor reads as "write failed" and drops
+            # the connection - a healthy connection lost to the reactor's own bookkeeping, with whatever was queued
+            self.eng.sent_empty = self.k
         taken = bytes(data[:n])
         if n:
             self.eng.out.append('S%d:%s' % (self.k, hexf(taken)))
@@ -342,6 +346,7 @@ class Impl(object):
         self.dead = False
         self.crash = None
         self.hung = False
+        self.sent_empty = None
         self.crash_in_write_path = False
         self.socks = {}
         self.threads = {}       # t -> AppThread
@@ -691,6 +696,8 @@ def monitors(res, cfg, events, lines, impl, script):
             res.violation('C12', 'handed-sequence', 'blocking thread session: read() returned %r ..., the PUBLISH frames received are %r ...' % (impl.handed[:3], expected[:3]), script)
         elif len(impl.handed) < len(expected) and not impl.dead:
             res.violation('C12', 'message-lost', 'blocking thread session: %d PUBLISH frame(s) were received but only %d handed to read() with the queue empty' % (len(expected), len(impl.handed)), script)
+    if getattr(impl, 'sent_empty', None) is not None and impl.sent_empty in impl.socks and impl.socks[impl.sent_empty].closed:
+        res.violation('C20', 'healthy-connection-dropped', 'blocking reactor: it called send() on connection %d with an EMPTY buffer, took the 0 it got back for a failed write and dropped a healthy connection: frames queued for it never reach the socket%s' % (impl.sent_empty, tag), script)
     if getattr(impl, 'hung', False):
         res.violation('C20', 'reactor-blocks', 'blocking reactor: servicing its select()-readable outbox it called recv() on the wake-up socket with no byte in it - the reactor thread blocks for ever and the frames queued behind never reach the socket%s' % tag, script)
     if getattr(impl, 'crash_in_write_path', False):
